@@ -662,10 +662,10 @@ fn models(tier: Tier) -> Vec<(String, Arc<M>, Vec<Plan>)> {
             l,
             m,
             vec![
-                Plan::Full { depth: 6 },
+                Plan::Full { depth: 5 },
                 Plan::Dev {
                     k: 3,
-                    depth: 80,
+                    depth: 48,
                     default: Arc::new(move |_| d),
                 },
             ],
@@ -725,7 +725,7 @@ fn models(tier: Tier) -> Vec<(String, Arc<M>, Vec<Plan>)> {
 pub fn run(tier: Tier) -> Report {
     let mut rep = Report::new();
     let lim = Limits {
-        wall: Duration::from_secs(if tier.is_quick() { 40 } else { 1500 }),
+        wall: Duration::from_secs(if tier.is_quick() { 40 } else { 480 }),
         ..Default::default()
     };
     for (label, m, plans) in models(tier) {
